@@ -30,6 +30,18 @@ def run_property(prop, tier, repo=None):
   patched = {}
   try:
     repo = repo or Repo()
+    # the engine's private role-bearing helpers are found by role when their name is gone (a
+    # rename or a move between method and module function); no-op on a tree that has the names
+    try:
+      from .rules._h_A import canonicalise
+      canonicalise(repo)
+    except Exception:
+      pass
+    try:
+      from .canon import canonicalise_module_functions
+      canonicalise_module_functions(repo)
+    except Exception:
+      pass
     while True:
       run = Run(prop, tier, repo, level=getattr(mod, "LEVEL", "other"))
       run.explanation = getattr(mod, "EXPLANATION", "")
